@@ -23,13 +23,24 @@ from compiler.util import ir_data_utils
 _FIXED_SIZE_ATTRIBUTE = "fixed_size_in_bits"
 
 
-def get_attribute(attribute_list, name):
-    """Finds name in attribute_list and returns a AttributeValue or None."""
+def get_attribute(attribute_list, name, back_end=None):
+    """Finds name in attribute_list and returns a AttributeValue or None.
+
+    Only attributes addressed to `back_end` are considered: the unqualified ones
+    (`[name: value]`) if `back_end` is None, the ones qualified with that back
+    end (`[(cpp) name: value]` for "cpp") otherwise.  An attribute of the same
+    name that belongs to someone else is not the attribute that was asked for.
+    """
     if not attribute_list:
         return None
     attribute_value = None
     for attr in attribute_list:
-        if attr.name.text == name and not attr.is_default:
+        if (
+            attr.name.text == name
+            and not attr.is_default
+            and (ir_data_utils.reader(attr).back_end.text or None)
+            == (back_end or None)
+        ):
             assert attribute_value is None, 'Duplicate attribute "{}".'.format(name)
             attribute_value = attr.value
     return attribute_value
